@@ -249,3 +249,40 @@ def consumer_attributes(ctx, shape, w, pre, post, r):
                        _z(And(pres, Not(same))),
                        'consumer %d does not carry the consumer type the '
                        'accepted request named' % n)
+
+
+def recreatable(ctx, shape, w, pre, post, r):
+    """C12, last sentence: a consumer that holds nothing after the request
+    (removed, or its first write rejected) can be created again by a write
+    carrying consumer_generation null; one that holds allocations cannot.
+    Issues the follow-up write, so it must be the last assertion."""
+    if shape.kind not in ('alloc', 'alloc-delete', 'reshape'):
+        return
+    from engine import app
+    allocs = {}
+    for a in post['allocations']:
+        allocs.setdefault(a.vals['consumer_id'], []).append(a)
+    for n in shape.consumers[:1]:
+        has_alloc = _pres(allocs.get(CONS(n), []))
+        body = {'allocations': {U(1): {'resources': {'VCPU': 1}}},
+                'project_id': 'proj', 'user_id': 'user',
+                'consumer_generation': None}
+        again = app.call('PUT', '/allocations/' + CONS(n), body,
+                         version='1.36')
+        detail = (again.error_detail or '').lower()
+        if again.status == 409 and 'consumer generation' in detail:
+            obligation(ctx, 'creatable-when-it-holds-nothing',
+                       _z(Not(has_alloc)),
+                       'after status %d consumer %d holds no allocations but '
+                       'a write with consumer_generation null is refused: %s'
+                       % (r.status, n, detail[:100]),
+                       sig='%s:%d' % (shape.kind, r.status))
+        elif again.status == 204:
+            obligation(ctx, 'null-generation-only-for-new-consumers',
+                       _z(has_alloc),
+                       'after status %d consumer %d holds allocations but a '
+                       'write with consumer_generation null is accepted'
+                       % (r.status, n), sig='%s:%d' % (shape.kind, r.status))
+        elif again.status >= 500:
+            runner.violation(ctx, 'no-5xx', 'follow-up write: %d'
+                             % again.status)
